@@ -7,7 +7,7 @@ use refimpl as r;
 
 fn budget(t: Tier) -> u64 {
     match t {
-        Tier::Quick => 1600,
+        Tier::Quick => 6_400,
         Tier::Thorough => 80_000,
     }
 }
